@@ -144,6 +144,75 @@ pub fn shuffle(v: &RefValue, ch: &mut gen::Chooser) -> RefValue {
 	}
 }
 
+/// D_wide_duplicates on one case.
+pub fn wide_duplicates_case(entries: &[(u8, u8)], ch: &[u8], p: u16, q: u16, newv: u8) -> Outcome {
+	let (p, q, newv) = (&p, &q, &newv);
+
+	let keys = ["k", "a-key-longer-than-sixteen-bytes", ""];
+	let vals = [RefValue::num("1"), RefValue::num("2"), RefValue::Arr(vec![RefValue::num("1")]), RefValue::Obj(vec![])];
+	let a: Vec<(String, RefValue)> = entries.iter().map(|(k, v)| (keys[*k as usize].to_string(), vals[*v as usize].clone())).collect();
+	let va = RefValue::Obj(a.clone());
+	// (i) permutation
+	let perm = shuffle(&va, &mut gen::Chooser::new(ch));
+	// (ii) one value flipped
+	let mut b = match &perm { RefValue::Obj(o) => o.clone(), _ => unreachable!() };
+	let i = gen::map_index(*p, b.len());
+	b[i].1 = vals[*newv as usize].clone();
+	let vb = RefValue::Obj(b.clone());
+	// (iii) two values exchanged
+	let mut c = b.clone();
+	let j = gen::map_index(*q, c.len());
+	let (x, y) = (c[i].1.clone(), c[j].1.clone());
+	c[i].1 = y;
+	c[j].1 = x;
+	let vc = RefValue::Obj(c);
+	let (ja, jp, jb, jc) = (va.to_value(), perm.to_value_push(), vb.to_value(), vc.to_value_push());
+	for (name, x, y, rx, ry) in [("permutation", &ja, &jp, &va, &perm), ("one value flipped", &ja, &jb, &va, &vb), ("flipped vs exchanged", &jb, &jc, &vb, &vc), ("original vs exchanged", &ja, &jc, &va, &vc)] {
+		let expected = normal_form(rx) == normal_form(ry);
+		if let Err(m) = pair_property(x, y, expected, false) {
+			return Outcome::fail(format!("{name}: {m}"));
+		}
+	}
+	Outcome::ok(a.len() > 32, vec![if a.len() > 64 { "entries_gt_64" } else if a.len() > 32 { "entries_33_64" } else { "entries_le_32" }])
+			}
+
+/// H_after_histories on one case.
+pub fn after_history_case(ops: &[super::c06::Op], rot: u16, mutsel: u16) -> Outcome {
+	let (rot, mutsel) = (&rot, &mutsel);
+
+	let universe = ["a", "b", "c"];
+	let (obj, model) = match super::c06::run_history(ops, &universe, false) {
+		Ok(x) => x,
+		Err(m) => return Outcome::fail(format!("history: {m}")),
+	};
+	let a = Value::Object(obj);
+	let mut rotated = model.clone();
+	if !rotated.is_empty() {
+		let k = gen::map_index(*rot, rotated.len());
+		rotated.rotate_left(k);
+	}
+	let b = RefValue::Obj(rotated.clone());
+	if let Err(m) = pair_property(&a, &b.to_value(), true, false) {
+		return Outcome::fail(format!("object after the history vs rotated rebuild: {m}"));
+	}
+	let mut has_dup = false;
+	if !rotated.is_empty() {
+		let i = gen::map_index(*mutsel, rotated.len());
+		// take the value of another entry with the same key if there is one (changes multiplicities only), else a fresh value
+		let key = rotated[i].0.clone();
+		let other = rotated.iter().enumerate().find(|(j, (k, v))| *j != i && *k == key && *v != rotated[i].1).map(|(_, (_, v))| v.clone());
+		has_dup = rotated.iter().filter(|(k, _)| *k == key).count() >= 2;
+		rotated[i].1 = other.unwrap_or(RefValue::str("fresh"));
+		let c = RefValue::Obj(rotated);
+		let expected = normal_form(&RefValue::Obj(model.clone())) == normal_form(&c);
+		if let Err(m) = pair_property(&a, &c.to_value(), expected, false) {
+			return Outcome::fail(format!("object after the history vs mutated rebuild: {m}"));
+		}
+	}
+	let removal = ops.iter().any(|o| matches!(o, super::c06::Op::Remove(..) | super::c06::Op::RemoveAt(_) | super::c06::Op::RemoveUnique(_) | super::c06::Op::Insert(..) | super::c06::Op::InsertFront(..)));
+	Outcome::ok(removal && has_dup, vec![])
+			}
+
 pub fn run(ctx: &mut Ctx) {
 	if ctx.wants("X3_all_pairs_le3_entries") {
 		ctx.begin_family("X3_all_pairs_le3_entries");
@@ -222,34 +291,7 @@ pub fn run(ctx: &mut Ctx) {
 			fam,
 			n,
 			|| (proptest::collection::vec((0u8..3, 0u8..4), 2..130), proptest::collection::vec(any::<u8>(), 0..140), any::<u16>(), any::<u16>(), 0u8..4),
-			|(entries, ch, p, q, newv)| {
-				let keys = ["k", "a-key-longer-than-sixteen-bytes", ""];
-				let vals = [RefValue::num("1"), RefValue::num("2"), RefValue::Arr(vec![RefValue::num("1")]), RefValue::Obj(vec![])];
-				let a: Vec<(String, RefValue)> = entries.iter().map(|(k, v)| (keys[*k as usize].to_string(), vals[*v as usize].clone())).collect();
-				let va = RefValue::Obj(a.clone());
-				// (i) permutation
-				let perm = shuffle(&va, &mut gen::Chooser::new(ch));
-				// (ii) one value flipped
-				let mut b = match &perm { RefValue::Obj(o) => o.clone(), _ => unreachable!() };
-				let i = gen::map_index(*p, b.len());
-				b[i].1 = vals[*newv as usize].clone();
-				let vb = RefValue::Obj(b.clone());
-				// (iii) two values exchanged
-				let mut c = b.clone();
-				let j = gen::map_index(*q, c.len());
-				let (x, y) = (c[i].1.clone(), c[j].1.clone());
-				c[i].1 = y;
-				c[j].1 = x;
-				let vc = RefValue::Obj(c);
-				let (ja, jp, jb, jc) = (va.to_value(), perm.to_value_push(), vb.to_value(), vc.to_value_push());
-				for (name, x, y, rx, ry) in [("permutation", &ja, &jp, &va, &perm), ("one value flipped", &ja, &jb, &va, &vb), ("flipped vs exchanged", &jb, &jc, &vb, &vc), ("original vs exchanged", &ja, &jc, &va, &vc)] {
-					let expected = normal_form(rx) == normal_form(ry);
-					if let Err(m) = pair_property(x, y, expected, false) {
-						return Outcome::fail(format!("{name}: {m}"));
-					}
-				}
-				Outcome::ok(a.len() > 32, vec![if a.len() > 64 { "entries_gt_64" } else if a.len() > 32 { "entries_33_64" } else { "entries_le_32" }])
-			},
+			|(entries, ch, p, q, newv)| wide_duplicates_case(entries, ch, *p, *q, *newv),
 			|(entries, ch, p, q, newv)| json!({"entries": entries, "choices": ch, "p": p, "q": q, "newv": newv}),
 		);
 		ctx.add(fam);
@@ -265,40 +307,8 @@ pub fn run(ctx: &mut Ctx) {
 			fam,
 			n,
 			move || (proptest::collection::vec(super::c06::arb_op(ks.clone(), true), 2..40), any::<u16>(), any::<u16>()),
-			|(ops, rot, mutsel)| {
-				let universe = ["a", "b", "c"];
-				let (obj, model) = match super::c06::run_history(ops, &universe, false) {
-					Ok(x) => x,
-					Err(m) => return Outcome::fail(format!("history: {m}")),
-				};
-				let a = Value::Object(obj);
-				let mut rotated = model.clone();
-				if !rotated.is_empty() {
-					let k = gen::map_index(*rot, rotated.len());
-					rotated.rotate_left(k);
-				}
-				let b = RefValue::Obj(rotated.clone());
-				if let Err(m) = pair_property(&a, &b.to_value(), true, false) {
-					return Outcome::fail(format!("object after the history vs rotated rebuild: {m}"));
-				}
-				let mut has_dup = false;
-				if !rotated.is_empty() {
-					let i = gen::map_index(*mutsel, rotated.len());
-					// take the value of another entry with the same key if there is one (changes multiplicities only), else a fresh value
-					let key = rotated[i].0.clone();
-					let other = rotated.iter().enumerate().find(|(j, (k, v))| *j != i && *k == key && *v != rotated[i].1).map(|(_, (_, v))| v.clone());
-					has_dup = rotated.iter().filter(|(k, _)| *k == key).count() >= 2;
-					rotated[i].1 = other.unwrap_or(RefValue::str("fresh"));
-					let c = RefValue::Obj(rotated);
-					let expected = normal_form(&RefValue::Obj(model.clone())) == normal_form(&c);
-					if let Err(m) = pair_property(&a, &c.to_value(), expected, false) {
-						return Outcome::fail(format!("object after the history vs mutated rebuild: {m}"));
-					}
-				}
-				let removal = ops.iter().any(|o| matches!(o, super::c06::Op::Remove(..) | super::c06::Op::RemoveAt(_) | super::c06::Op::RemoveUnique(_) | super::c06::Op::Insert(..) | super::c06::Op::InsertFront(..)));
-				Outcome::ok(removal && has_dup, vec![])
-			},
-			|(ops, rot, mutsel)| json!({"ops": format!("{ops:?}"), "rot": rot, "mutsel": mutsel}),
+			|(ops, rot, mutsel)| after_history_case(ops, *rot, *mutsel),
+			|(ops, rot, mutsel)| { let mut j = super::c06::ops_json(ops); j["rot"] = json!(rot); j["mutsel"] = json!(mutsel); j },
 		);
 		ctx.add(fam);
 	}
@@ -306,8 +316,20 @@ pub fn run(ctx: &mut Ctx) {
 }
 
 pub fn replay(family: &str, case: &J) -> Result<(), String> {
-	if family == "D_wide_duplicates" || family == "H_after_histories" {
-		return Err("recorded for reading; re-run the family with the same VERIF_SEED to reproduce".into());
+	if family == "D_wide_duplicates" {
+		let entries: Vec<(u8, u8)> = case["entries"].as_array().ok_or("bad case")?.iter().map(|e| (e[0].as_u64().unwrap() as u8, e[1].as_u64().unwrap() as u8)).collect();
+		let ch: Vec<u8> = case["choices"].as_array().ok_or("bad case")?.iter().map(|x| x.as_u64().unwrap() as u8).collect();
+		return match wide_duplicates_case(&entries, &ch, case["p"].as_u64().unwrap() as u16, case["q"].as_u64().unwrap() as u16, case["newv"].as_u64().unwrap() as u8).verdict {
+			Ok(()) => Ok(()),
+			Err((m, _)) => Err(m),
+		};
+	}
+	if family == "H_after_histories" {
+		let ops: Vec<super::c06::Op> = case["ops"].as_array().ok_or("bad case")?.iter().map(super::c06::dec_op).collect();
+		return match after_history_case(&ops, case["rot"].as_u64().unwrap() as u16, case["mutsel"].as_u64().unwrap() as u16).verdict {
+			Ok(()) => Ok(()),
+			Err((m, _)) => Err(m),
+		};
 	}
 	if family == "G_shuffle_and_mutate" {
 		let v = RefValue::decode(&case["value"]);
